@@ -17,7 +17,7 @@ TIER_CAPS = {  # per-query caps: (timeout s, address-space GB)
 class Query:
     def __init__(self, name, unit, entry, unwind=10, unwindset=(), flags=(), object_bits=10, checks='none',
                  tier='quick', replay='native', bounds=None, about='', known=None, expect_witness=True,
-                 mutate_vectors=4, timeout=None, mem_gb=None, expect_fail=(), loop_bounds=()):
+                 mutate_vectors=4, timeout=None, mem_gb=None, expect_fail=(), loop_bounds=(), weight=1):
         self.name = name; self.unit = unit; self.entry = entry; self.unwind = unwind
         self.unwindset = list(unwindset); self.flags = list(flags); self.object_bits = object_bits
         self.checks = checks; self.tier = tier; self.replay = replay
@@ -27,7 +27,8 @@ class Query:
         self.mutate_vectors = mutate_vectors
         self.timeout = timeout; self.mem_gb = mem_gb
         self.expect_fail = list(expect_fail)
-        self.loop_bounds = list(loop_bounds)   # descriptions of further assertions that must FAIL (reachability twins)
+        self.loop_bounds = list(loop_bounds)
+        self.weight = weight       # share of the parallel job slots this query occupies (memory-hungry queries: > 1)   # descriptions of further assertions that must FAIL (reachability twins)
 
 
 def load_known():
@@ -91,9 +92,26 @@ class Check:
             res['cmd'] = ' '.join(pl.sh_quote(c) for c in cmd)
             return q, res
         results = []
+        import threading
+        cv = threading.Condition(); free = [jobs]
+
+        def solve_w(q):
+            w = min(q.weight, jobs)
+            with cv:
+                while free[0] < w:
+                    cv.wait()
+                free[0] -= w
+            try:
+                return solve(q)
+            finally:
+                with cv:
+                    free[0] += w
+                    cv.notify_all()
+        order = sorted(qs, key=lambda q: -q.weight)
         with ThreadPoolExecutor(max_workers=jobs) as ex:
-            for q, res in ex.map(solve, qs):
+            for q, res in ex.map(solve_w, order):
                 results.append((q, res))
+        results.sort(key=lambda qr: qs.index(qr[0]))
 
         # 3. classify
         violations = []; known_lines = []; records = []; validated = 0
